@@ -68,6 +68,9 @@ def preds (g : Graph) (n : Nat) : List Nat := (g.edges.filter (·.dst == n)).map
 /-- ↔ `get_node_type_inputs`: the nodes whose value `n` takes as argument. -/
 def dataPreds (g : Graph) (n : Nat) : List Nat :=
   (g.edges.filter (fun e => e.dst == n && e.kind != .before)).map (·.src)
+/-- the nodes that take the value of `n` as an argument -/
+def dataSuccs (g : Graph) (n : Nat) : List Nat :=
+  (g.edges.filter (fun e => e.src == n && e.kind != .before)).map (·.dst)
 /-- ↔ `get_node_happen_befores`, sorted by node index. -/
 def befores (g : Graph) (n : Nat) : List Nat :=
   (List.range g.size).filter (fun p => g.edges.any (fun e => e.src == p && e.dst == n && e.kind == .before))
@@ -286,7 +289,7 @@ def splice (obs : List Nat) : Graph → List Nat → Graph
   | g, h :: hs =>
     if obs.isEmpty then g else
     match (g.succs h).head?, errorNewOf g h with
-    | some child, some enew => splice obs (attachObservers g enew child obs none) hs
+    | some child, some enew => splice obs (attachObservers g enew child obs (some h)) hs
     | _, _ => splice obs g hs
 
 def ehNodes (g : Graph) : List Nat := (List.range g.size).filter (fun n => isEh (g.kind n))
@@ -369,7 +372,7 @@ def armShape (g : Graph) (b : Nat) (hk : Kind) (upcast : Bool) (obs : List Nat) 
         (g.dataPreds h).any (fun e => g.kind e == .errorNew && (g.dataPreds e).contains m)))
     match hs with
     | [h] =>
-      match g.succs h with
+      match g.dataSuccs h with
       | [ir] =>
         let chain := chainOf g g.size ir
         let enews := (g.succs m).filter (fun e => g.kind e == .errorNew)
